@@ -28,6 +28,7 @@ for M in "$@"; do
   )
   git -C /repo worktree remove --force $WT; rm -f /tmp/demo_*.rs.keep
   fi
+  if [ -n "${CONFIRM_ONLY:-}" ]; then continue; fi   # step (1) only: safe to run for several changes in parallel
   # (2) my checks against the mutated /repo
   git -C /repo apply $patch 2>>$log || { echo "APPLY-TO-REPO-FAILED" >> $log; continue; }
   for chk0 in $(cat $M/checks.txt 2>/dev/null || echo $prop); do
